@@ -266,4 +266,5 @@ pub fn run(out: &mut Out, tier: &str, seed: u64) {
     containers(out, &mut rng, tier == "thorough");
     let build = if cfg!(feature = "simd") { "nightly+simd_backend" } else if cfg!(feature = "nightly") { "nightly" } else { "default" };
     out.notes.insert("build".into(), json!(build));
+    { let mut rng2 = Rng::new(seed, "c18-extra"); crate::objapi::conversions(out, &mut rng2); }
 }
